@@ -53,6 +53,19 @@ theorem c07_added_global_ids (s : St) (uid : Nat) (sites : List Ref) :
   refine ⟨rfl, (iterAddGlobal_spec s uid sites).1, (addImportedGlobal_spec s uid).1, ?_⟩
   rw [(addImportedGlobal_spec s uid).2]; simp
 
+/-- **a reported id is new.** With stored ids equal to positions (`IdsFresh`, a clause of the state invariant of every state reached
+    from a parsed module before an encode), the id reported for an added global - the length of the vector - is held by no entity of
+    the space, live or deleted: the caller never ends up with one id for two globals. (The `edit` family judges exactly this on the
+    crate: signature `G-returned-id-already-in-use`.) -/
+theorem c07_reported_id_is_new (s : St) (hf : IdsFresh s.g.items) (it : Item) (hit : it ∈ s.g.items) :
+    it.id ≠ s.g.items.length := by
+  obtain ⟨i, hi⟩ := List.mem_iff_getElem?.mp hit
+  have hid := hf i it hi
+  have hlt : i < s.g.items.length := by
+    rcases List.getElem?_eq_some_iff.mp hi with ⟨h, _⟩
+    exact h
+  omega
+
 /-- regression for F10: an iterator-added global followed by an imported global -/
 example : let s0 : St := { g := { items := [⟨0, false, false, 7, 0⟩] } }
     ((addImportedGlobal (iterAddGlobal s0 8 []).1 9).2 matches Ret.id2 2 0) = true := by decide
